@@ -1011,7 +1011,7 @@ def run(args):
     # for the replay's explanation
     cases, glits, gunits = group_cases(entries)
     verdicts, info = run_case_shards(PROP, "Corr.C17", glits, shard_size=12, max_bytes=40_000, units=gunits,
-                                     run_fn="run_groups")
+                                     run_fn="run_groups", header_extra="Open Scope N_scope.\n")
     lap("coq_dump_cases")
     timing["dump_case_literal_bytes"] = sum(len(x) for x in glits)
     timing["dump_case_shards"] = info.get("shards")
